@@ -117,7 +117,14 @@ func afLen(m *ref.Packet) interface{} {
 }
 
 func c02SetPayload(b [188]byte, m *ref.Packet, data []byte) *hx.Failure {
-	if len(data) == 0 && data != nil {
+	return c02SetPayloadFrom(b, m, data, nil)
+}
+
+// c02SetPayloadFrom is the SetPayload oracle. When window is not nil the argument handed to SetPayload is
+// that window of the packet's OWN payload as the function-style accessor returns it (a sub-slice of the
+// packet): the bytes to store are the ones the window held when the call was made.
+func c02SetPayloadFrom(b [188]byte, m *ref.Packet, data []byte, window *[2]int) *hx.Failure {
+	if len(data) == 0 && data != nil && window == nil {
 		// zero bytes can be handed over as an empty slice or as nil: the same request
 		if f := c02SetPayload(b, m, nil); f != nil {
 			f.Msg += " [data = nil]"
@@ -125,9 +132,18 @@ func c02SetPayload(b [188]byte, m *ref.Packet, data []byte) *hx.Failure {
 		}
 	}
 	p := packet.Packet(b)
+	arg := data
+	if window != nil {
+		own, err := packet.Payload(&p)
+		if err != nil || window[1] > len(own) {
+			return hx.Failf("bad-case", "window outside the payload")
+		}
+		arg = own[window[0]:window[1]]
+		data = clone(arg)
+	}
 	keep := clone(data)
-	n, err := p.SetPayload(data)
-	if !bytes.Equal(keep, data) {
+	n, err := p.SetPayload(arg)
+	if window == nil && !bytes.Equal(keep, data) {
 		return hx.Failf("setpayload-mutates-arg", "SetPayload modified the caller's data")
 	}
 	if m.AFC == 2 {
@@ -148,6 +164,9 @@ func c02SetPayload(b [188]byte, m *ref.Packet, data []byte) *hx.Failure {
 		want = capacity
 	}
 	ctx := fmt.Sprintf("afc=%d af_len=%v content=%d capacity=%d n=%d", m.AFC, afLen(m), contentOf(m), capacity, len(data))
+	if window != nil {
+		ctx += fmt.Sprintf(", data = bytes [%d,%d) of the packet's own payload as returned by packet.Payload", window[0], window[1])
+	}
 	if err != nil {
 		return hx.Failf("setpayload-error", "SetPayload failed on a packet that carries payload: %v (%s)", err, ctx)
 	}
@@ -376,6 +395,22 @@ func checkC02(c CaseC02, x *hx.Ctx) *hx.Failure {
 	}
 	if f := c02SetPayload(b, m, c.Data); f != nil {
 		return f
+	}
+	// the packet's own payload (or a window of it) handed back
+	if m.AFC&1 != 0 && len(m.Payload) > 0 {
+		k := len(c.Data)
+		if k > len(m.Payload) {
+			k = len(m.Payload)
+		}
+		off := 0
+		if len(m.Payload) > k {
+			off = (c.CC*7 + c.PID) % (len(m.Payload) - k + 1)
+		}
+		x.Label("own-payload-handed-back")
+		if f := c02SetPayloadFrom(b, m, nil, &[2]int{off, off + k}); f != nil {
+			f.Key += "-own-window"
+			return f
+		}
 	}
 	return c02Helpers(c)
 }
